@@ -125,7 +125,7 @@ class GenInterp:
     # ------------------------------------------------------------ execution
     def exec_fn(self, fi, st: State, depth):
         cfg = cfg_of(fi)
-        paths = cfg.paths(max_visits=1, limit=4000)
+        paths = cfg.paths(limit=4000)
         self.paths_enumerated += len(paths)
         outs = {}
         for path in paths:
